@@ -54,7 +54,7 @@ func (valenc *structEncoder) Write(enc *Encoder, v interface{}) {
 	p := reflect2.PtrOf(v)
 	enc.WriteObjectHead(r)
 	for i := 0; i < n; i++ {
-		fields[i].Encode(enc, fields[i].Type.UnsafeIndirect(fields[i].Field.UnsafeGet(p)))
+		fields[i].Encode(enc, fields[i].Type.UnsafeIndirect(fields[i].unsafeGet(p)))
 	}
 	enc.WriteFoot()
 }
@@ -145,7 +145,7 @@ func (valenc *anonymousStructEncoder) Write(enc *Encoder, v interface{}) {
 	enc.WriteMapHead(n)
 	for i := 0; i < n; i++ {
 		enc.EncodeString(fields[i].Alias)
-		fields[i].Encode(enc, fields[i].Type.UnsafeIndirect(fields[i].Field.UnsafeGet(p)))
+		fields[i].Encode(enc, fields[i].Type.UnsafeIndirect(fields[i].unsafeGet(p)))
 	}
 	enc.WriteFoot()
 }
